@@ -262,7 +262,8 @@ func (d *ParagraphDetector) detectLeftMargin(lines []Line) float64 {
 	maxCount := 0
 	mostCommonBucket := 0
 	for bucket, count := range marginCounts {
-		if count > maxCount {
+		// ties go to the leftmost margin so that the result does not depend on map iteration order
+		if count > maxCount || (count == maxCount && bucket < mostCommonBucket) {
 			maxCount = count
 			mostCommonBucket = bucket
 		}
@@ -476,7 +477,8 @@ func (d *ParagraphDetector) detectDominantAlignment(lines []Line) LineAlignment 
 	maxCount := 0
 	dominant := AlignUnknown
 	for align, count := range counts {
-		if count > maxCount {
+		// ties are broken by the alignment's declaration order, not by map iteration order
+		if count > maxCount || (count == maxCount && align < dominant) {
 			maxCount = count
 			dominant = align
 		}
